@@ -133,6 +133,7 @@ def _item_end(toks, code, k):
     blocky = first in _BLOCK_STARTERS
     depth = 0
     j = k
+    cont = (',', '&', '|', '=', '==>', '.', '?', 'as', '!', '+', '-', '*', '<', '>', '=>', ')')
     while j < len(code):
         t = toks[code[j]]
         if t[0] == 'p':
@@ -143,12 +144,15 @@ def _item_end(toks, code, k):
                 if depth < 0:
                     return j - 1  # tail expression: ends before the enclosing close
                 if depth == 0 and t[1] == '}' and blocky:
-                    # `if .. {} else {}` chains
-                    if j + 1 < len(code) and toks[code[j + 1]][1] == 'else':
+                    nxt = toks[code[j + 1]][1] if j + 1 < len(code) else ''
+                    # `if .. {} else {}` chains; `{..}` inside a spliced contract clause (match / if expression)
+                    if nxt == 'else' or nxt in cont:
                         j += 1
                         continue
                     return j
-            elif depth == 0 and t[1] in (';', ','):
+            elif depth == 0 and t[1] == ';':
+                return j
+            elif depth == 0 and t[1] == ',' and not blocky:
                 return j
         j += 1
     raise Undecided('cfg item without end')
@@ -198,6 +202,14 @@ def apply_cfg(src, features, log, fname, drop_test_only=False):
                     ee += 1
                 if ee < len(src) and src[ee] == '\n':
                     e = ee + 1
+            # doc comments (and attributes) that precede the cfg attribute belong to the removed item
+            while s > 0:
+                pl = src.rfind('\n', 0, s - 1) + 1
+                prev = src[pl:s].strip()
+                if prev.startswith('///') or (prev.startswith('#[') and prev.endswith(']')):
+                    s = pl
+                else:
+                    break
             removed = src[s:e]
             src = src[:s] + src[e:]
             log.append({'rule': 'X1' if pred == ['test'] else 'X2', 'file': fname, 'line': line,
